@@ -54,10 +54,11 @@ impl<RS: Read + Seek> SeekableChain<RS> {
             return Ok(pos);
         }
         if pos >= self.max_pos {
-            self.abs_pos = self.max_pos;
+            // like for a regular file seeking beyond the end is allowed (reads will return 0)
+            self.abs_pos = pos;
             self.cur_idx = self.chain.len() + 1;
             self.rel_pos = 0;
-            return Ok(self.max_pos);
+            return Ok(pos);
         }
         // todo optimize for relative... seek within rel_pos...
         self.abs_pos = 0;
@@ -86,9 +87,7 @@ impl<RS: Read + Seek> SeekableChain<RS> {
 
 impl<RS: Read + Seek> Read for SeekableChain<RS> {
     fn read(&mut self, buf: &mut [u8]) -> std::io::Result<usize> {
-        if self.cur_idx >= self.chain.len() {
-            Ok(0)
-        } else {
+        while self.cur_idx < self.chain.len() {
             // cur_idx is valid
             // read from current reader:
             let (max_pos, reader) = &mut self.chain[self.cur_idx];
@@ -106,8 +105,12 @@ impl<RS: Read + Seek> Read for SeekableChain<RS> {
                 // seek new reader to 0? reader.seek(SeekFrom::Start(pos))?; for now do it at the beginning of read
             }
             // todo check whether optimizing to fill full buffer is faster
-            Ok(read)
+            if read > 0 || max_read > 0 || buf.is_empty() {
+                return Ok(read);
+            }
+            // else the current reader was empty (size 0). We must not return 0 (EOF) but try the next one
         }
+        Ok(0)
     }
 }
 
@@ -116,21 +119,21 @@ impl<RS: Read + Seek> Seek for SeekableChain<RS> {
         // println!("seek: {:?}", pos);
         match pos {
             SeekFrom::Start(offset) => self.seek_abs(offset),
-            SeekFrom::Current(offset) => {
-                let new_pos = if offset < 0 {
-                    self.abs_pos.saturating_sub(-offset as u64)
-                } else {
-                    self.abs_pos.saturating_add(offset as u64)
-                };
-                self.seek_abs(new_pos)
-            }
-            SeekFrom::End(offset) => {
-                if offset <= 0 {
-                    self.seek_abs(self.max_pos.saturating_sub(-offset as u64))
-                } else {
-                    Ok(self.max_pos)
-                }
-            }
+            // like for a regular file seeking to a negative position is an error:
+            SeekFrom::Current(offset) => match self.abs_pos.checked_add_signed(offset) {
+                Some(new_pos) => self.seek_abs(new_pos),
+                None => Err(std::io::Error::new(
+                    std::io::ErrorKind::InvalidInput,
+                    "invalid seek to a negative or overflowing position",
+                )),
+            },
+            SeekFrom::End(offset) => match self.max_pos.checked_add_signed(offset) {
+                Some(new_pos) => self.seek_abs(new_pos),
+                None => Err(std::io::Error::new(
+                    std::io::ErrorKind::InvalidInput,
+                    "invalid seek to a negative or overflowing position",
+                )),
+            },
         }
     }
 }
